@@ -352,7 +352,11 @@ func (p *path) addRule(
 		invalid(tok)
 	}
 
-	if y, ok := cursor.methods[verb]; ok || cursor.methodAll != nil {
+	y, ok := cursor.methods[verb]
+	if !ok {
+		y = cursor.methodAll // the binding is occupied for every verb
+	}
+	if y != nil {
 		if y.desc.FullName() != desc.FullName() {
 			return fmt.Errorf("duplicate rule %v", rule)
 		}
